@@ -67,21 +67,31 @@ def fileLen (d : Disk) (p : Path) : Nat :=
   | some f => f.length
   | none => 0
 
-/-- `flushLocked` under faults -/
+/-- `flushLocked` under faults.  With `rollsBackFailedBlock` this is the repaired version: a
+    failed block write is cut off again (`Truncate(start)`, remembered in `dirty` when even that
+    fails and retried before the next block), the offset goes back and the entries stay buffered. -/
 def flushWF (fc : FCfg) (mk : Mk) (s : FSt) : FSt :=
+  -- the repaired flush first gets rid of a fragment it could not cut off earlier
+  let s : FSt × Bool :=
+    if fc.rollsBackFailedBlock && s.w.dirty then
+      let (s', r) := s.issue (.truncate s.w.path s.w.pos)
+      if r.isOk then ({ s' with w := { s'.w with dirty := false } }, true) else ({ s' with failed := true }, false)
+    else (s, true)
+  if !s.2 then s.1 else
+  let s := s.1
   match s.w.buf with
   | [] => s
   | _ =>
     let w := s.w
     let b := mk w.buf
     let start := w.pos
-    -- `buffer.Flush()` has already cleared the buffer when the writes start
+    -- the buffer has already been emptied when the writes start
     let wCleared : WSt := { w with buf := [], bufSize := 0 }
     let w0 := if fc.clearsBufferBeforeWrite then wCleared else w
     let rollback (s : FSt) (pos : Nat) : FSt :=
       if fc.rollsBackFailedBlock then
-        let (s', _) := ({ s with w := { w with pos := start } } : FSt).issue (.truncate w.path start)
-        { s' with failed := true }
+        let (s', r) := ({ s with w := { w with pos := start } } : FSt).issue (.truncate w.path start)
+        { s' with w := { s'.w with dirty := !r.isOk }, failed := true }
       else { s with w := { w0 with pos := pos }, failed := true }
     let (s1, r1) := s.issue (.write w.path start (hdrCells b))
     if !r1.isOk then rollback s1 (start + r1.written 16) else
@@ -109,7 +119,9 @@ def syncWF (c : Cfg) (fc : FCfg) (mk : Mk) (s : FSt) : FSt :=
   let s1 := flushWF fc mk { s with failed := false }
   if s1.failed then s1 else
   let (s2, r2) := s1.issue (.write s1.w.path 0 (fhCells s1.w.nl))
-  if !r2.isOk then { s2 with w := { s2.w with pos := r2.written 64 }, failed := true } else
+  if !r2.isOk then
+    { s2 with w := { s2.w with pos := if fc.restoresOffsetAfterHeader then fileLen s2.d s2.w.path else r2.written 64 },
+              failed := true } else
   -- Seek(0, io.SeekEnd)
   let s3 := { s2 with w := { s2.w with pos := fileLen s2.d s2.w.path } }
   if c.syncFsyncs then
@@ -141,6 +153,53 @@ def createWF (p : Path) (nl bs : Nat) (d : Disk) (rs : List Res) : FSt :=
   let (s3, r3) := s2.issue (.write p 64 (nmCells nl))
   { s3 with failed := !r3.isOk }
 
+/-! ### Compaction under faults -/
+
+/-- entries until the first failing flush (`WriteEntry` error ⇒ the compaction loop stops) -/
+def addUntilFail (fc : FCfg) (mk : Mk) (s : FSt) : List (Op × Nat) → FSt
+  | [] => s
+  | (e, sz) :: rest =>
+    let s1 := addWF fc mk { s with failed := false } e sz
+    if s1.failed then s1 else addUntilFail fc mk s1 rest
+
+def rmTempF (s : FSt) : FSt :=
+  match s.d.temp with
+  | some _ => (s.issue (.unlink .temp)).1
+  | none => s
+
+/-- `Compactor.Compact` / `CompactFromIndex` under faults: any failure after the temp was opened
+    closes the writer, removes the temp and returns the error; the main file is only ever touched
+    by the final rename. -/
+def compactF (c : Cfg) (fc : FCfg) (mk : Mk) (d : Disk) (rs : List Res) (rmFirst : Bool)
+    (entries : List (Op × Nat)) (bs : Nat) : FSt :=
+  let w0 : WSt := { path := .temp, pos := 0, nl := mainNl d, buf := [], bufSize := 0, bs := bs }
+  let s0 : FSt := { w := w0, d := d, rs := rs }
+  let s0 := if rmFirst then rmTempF s0 else s0
+  -- NewFileWriterWithName(temp)
+  let opened : FSt × Bool :=
+    match s0.d.temp with
+    | none =>
+      let s := createWF .temp (mainNl d) bs s0.d s0.rs
+      ({ s with ops := s0.ops ++ s.ops }, !s.failed)
+    | some _ =>
+      match openWriter c s0.d .temp (mainNl d) bs with
+      | some (w, oo) =>
+        let s1 := oo.foldl (fun (s : FSt) op => if s.failed then s else
+          let (s', r) := s.issue op
+          { s' with failed := !r.isOk }) { s0 with w := w }
+        (s1, !s1.failed)
+      | none => ({ s0 with failed := true }, false)
+  if !opened.2 then { opened.1 with failed := true } else
+  let s1 := addUntilFail fc mk opened.1 entries
+  if s1.failed then
+    -- writer.Close() (its own result is ignored), os.Remove(temp)
+    { rmTempF { closeWF c fc mk s1 with failed := false } with failed := true }
+  else
+  let s2 := closeWF c fc mk s1
+  if s2.failed then { rmTempF s2 with failed := true } else
+  let (s3, r3) := s2.issue (.rename .temp .main)
+  if !r3.isOk then { rmTempF s3 with failed := true } else s3
+
 /-- chronicler state under faults -/
 structure CFSt where
   cs : CSt
@@ -166,7 +225,13 @@ def cWriteF (c : Cfg) (fc : FCfg) (mk : Mk) (st : CFSt) (items : List (Op × Nat
         if s.failed then none else some s
       | some _ =>
         match openWriter c st.d .main st.cs.nlName st.cs.bs with
-        | some (w, _) => some { w := w, d := st.d, rs := st.rs }
+        | some (w, oo) =>
+          -- the repaired open may recreate the file or cut a torn tail: real operations with results
+          let s0 : FSt := { w := w, d := st.d, rs := st.rs }
+          let s1 := oo.foldl (fun (s : FSt) op => if s.failed then s else
+            let (s', r) := s.issue op
+            { s' with failed := !r.isOk }) s0
+          if s1.failed then none else some s1
         | none => none
   match opened with
   | none =>
@@ -175,6 +240,15 @@ def cWriteF (c : Cfg) (fc : FCfg) (mk : Mk) (st : CFSt) (items : List (Op × Nat
     | none, none =>
       let s := createWF .main st.cs.nlName st.cs.bs st.d st.rs
       ⟨{ st with d := s.d, rs := s.rs }, s.ops, false⟩
+    | none, some _ =>
+      match openWriter c st.d .main st.cs.nlName st.cs.bs with
+      | some (w, oo) =>
+        let s0 : FSt := { w := w, d := st.d, rs := st.rs }
+        let s1 := oo.foldl (fun (s : FSt) op => if s.failed then s else
+          let (s', r) := s.issue op
+          { s' with failed := !r.isOk }) s0
+        ⟨{ st with d := s1.d, rs := s1.rs }, s1.ops, false⟩
+      | none => ⟨st, [], false⟩
     | _, _ => ⟨st, [], false⟩
   | some s0 =>
     let s := addManyWF fc mk s0 items
@@ -194,5 +268,22 @@ def cCloseF (c : Cfg) (fc : FCfg) (mk : Mk) (st : CFSt) : CFOut :=
   | some w =>
     let s := closeWF c fc mk { w := w, d := st.d, rs := st.rs }
     ⟨{ cs := { st.cs with w := none }, d := s.d, rs := s.rs }, s.ops, s.failed⟩
+
+/-- `runCompactionLocked` / CLI / load self-heal under faults -/
+def cCompactF (c : Cfg) (fc : FCfg) (mk : Mk) (st : CFSt) (ep : EP) (order : List (Nat × Nat)) (skip : Bool) : CFOut :=
+  -- runCompactionLocked first closes the chronicler's writer; a failing Close aborts
+  let pre : CFOut := if ep == .locked then cCloseF c fc mk st else ⟨st, [], false⟩
+  if pre.failed then pre else
+  let st1 := pre.st
+  if skip then
+    let s : FSt := { w := { path := .temp, pos := 0, nl := 0, buf := [], bufSize := 0, bs := 0 }, d := st1.d, rs := st1.rs }
+    let s := if ep == .locked && c.rmTempLocked then rmTempF s else s
+    ⟨{ st1 with d := s.d, rs := s.rs }, pre.ops ++ s.ops, false⟩
+  else
+  match mainIndex c st1.d with
+  | none => ⟨st1, pre.ops, true⟩
+  | some idx =>
+    let s := compactF c fc mk st1.d st1.rs (ep.rmFirst c) (liveEntries idx order) (if ep == .cli then 16384 else st1.cs.bs)
+    ⟨{ st1 with d := s.d, rs := s.rs }, pre.ops ++ s.ops, s.failed⟩
 
 end Hv.BlockStore
